@@ -1780,7 +1780,11 @@ def rangeBind (r : Rec) (env : Env) (set : Option SetN) (slot : Option Nat) (v :
          | .ident _ n => letVar n v
          | .underscore _ => letVar [95] v
          | _ => unsupported "range variable of non-identifier kind")
-      else executeSet r env l v
+      else
+        -- '_' discards, as in an assignment outside range (executeSetList skips it too)
+        (match l with
+         | .underscore _ => pure ()
+         | _ => executeSet r env l v)
     | none => crash "index out of range"
   | _, _ => pure ()
 
